@@ -206,6 +206,17 @@ def some_edge_of(prog, body, call_block, label="Some", union=False):
     return edges
 
 
+def _returns_directly(b, start, stop):
+    """Every path from `start` reaches a return without passing a block of `stop` (the arm ends the connection at once)."""
+    seen = b.reachable([start], removed_nodes=set(stop))
+    rets = set(core.return_blocks(b))
+    if not (seen & rets):
+        return False
+    # no path from start into a stop block
+    full = b.reachable([start], removed_nodes=rets)
+    return not (full & set(stop))
+
+
 def analyse_loop(chk, prog, cfg, b, facts):
     fn = b.path
     chk.saw_fn(fn)
@@ -227,8 +238,8 @@ def analyse_loop(chk, prog, cfg, b, facts):
     # ---- R2: error mapping table (HIR)
     hfn = fn.replace("::{closure#0}", "")
     err_tables = [m for m in tables.fn_tables(prog, hfn) if "RequestError" in m.get("scrut_ty", "")]
-    chk.floor(f"RequestError table [{cfg}]", len(err_tables), 1)
     err_map = {}
+    rest = []
     if err_tables:
         mp, rest, dup = tables.simple_map(err_tables[0], key_kinds=("path",))
         for k, v in mp.items():
@@ -239,6 +250,33 @@ def analyse_loop(chk, prog, cfg, b, facts):
                 err_map[name] = "return"
             else:
                 err_map[name] = str(v[0])
+    if len(err_map) < 4:
+        # MIR form of the same table: the edge of a switch on a RequestError value per variant; under it either the error handler is
+        # called with one status, or the function returns without serialising / writing anything
+        err_map, rest = {}, []
+        for sb in range(len(b.blocks)):
+            tt = b.term(sb)
+            if not tt or tt["k"] != "switch":
+                continue
+            info = switch_info(prog, b, sb)
+            if not info or info.get("kind") != "enum" or not str(info.get("src_ty", "")).endswith("request::RequestError"):
+                continue
+            for lab, tgt in info["edges"].items():
+                statuses = set()
+                for cb_, ct in b.calls():
+                    if ct.get("callee") is None and b.edge_dominates(sb, tgt, cb_):
+                        for a in ct["args"]:
+                            d_ = describe(prog, b, a)
+                            if d_[0] == "variant" and d_[1].endswith("StatusCode"):
+                                statuses.add(d_[2])
+                if len(statuses) == 1:
+                    err_map[lab] = "respond:" + next(iter(statuses))
+                elif not statuses and _returns_directly(b, tgt, set(S) | set(W) | set(P)):
+                    err_map[lab] = "return"
+                else:
+                    err_map[lab] = f"statuses {sorted(statuses)}, then the common path"
+    chk.floor(f"RequestError table [{cfg}]", len(err_map), 1)
+    if err_map:
         want = {"Request": "respond:BadRequest", "Timeout": "respond:RequestTimeout", "Disconnected": "return", "Stream": "return"}
         for k, w in want.items():
             fact("R2.error_map", f"RequestError::{k} -> {w}", err_map.get(k) == w,
